@@ -1,0 +1,35 @@
+//go:build verif
+// +build verif
+
+package backend
+
+// Verification hooks for property C25 (replica selection): add-only access to
+// the unexported balancer. Compiled only with the build tag `verif`.
+
+// VerifNewBalancer exposes newBalancer.
+func VerifNewBalancer(indices []int, weights []int) (*balancer, error) {
+	return newBalancer(indices, weights)
+}
+
+// VerifGcd exposes gcd.
+func VerifGcd(ary []int) int { return gcd(ary) }
+
+// VerifBalancerNext exposes (*balancer).next.
+func VerifBalancerNext(b *balancer) (int, error) { return b.next() }
+
+// VerifBalancerQueue returns the balancer's round-robin queue itself (not a
+// copy): the harness reads the shuffled order and may permute it in place.
+func VerifBalancerQueue(b *balancer) []int { return b.roundRobinQ }
+
+// VerifBalancerCursor returns the selection cursor.
+func VerifBalancerCursor(b *balancer) uint32 { return b.nextIndex }
+
+// VerifBalancerSetCursor presets the selection cursor.
+func VerifBalancerSetCursor(b *balancer, v uint32) { b.nextIndex = v }
+
+// VerifIsGetConnError tells whether err is the error getConnWithFuse wraps a
+// pool failure in.
+func VerifIsGetConnError(err error) bool {
+	_, ok := err.(*getConnError)
+	return ok
+}
